@@ -482,7 +482,19 @@ def c12(res, rng, tier, replay=None):
     res.rule = ('ExprGen globs (many rooted, many with `.`/`..` components at every nesting depth) and any() combinators x sampled paths; '
                 'non-trivial = distinct (pattern, path); tie: has_root(), has_semantic_literals() impl vs model; oracle: Always => every '
                 'matched path starts with `/`; a glob is never Sometimes; a component spelled `.` or `..` anywhere => semantic literals')
-    items, built = prepare(res, rng, n)
+    crafted = []
+    for b1 in G.BOUNDS:
+        for b2 in G.BOUNDS:
+            crafted += ['<</a%s>%s>b' % (b1, b2), '<</**/a%s>%s>b' % (b1, b2), '<<a/%s>%s>b' % (b1, b2)]
+        crafted += ['{</a%s>,b}' % b1, '<{/a,b}%s>c' % b1, '</a%s>b' % b1, '</**/a%s>' % b1, '<{</a%s>}:1>' % b1]
+    dots = ['.(?i).', '(?i).(?-i).', '.(?-i)', '(?i)..', '.', '..', '.(?i).(?-i)', 'a.', '...']
+    for dd in dots:
+        crafted += [dd, dd + '/a', 'a/' + dd + '/b', '{a,%s}' % dd, '<a/%s:1,>' % dd, '{a,<b/{c,%s}/>}d' % dd, 'a/{b,c}/%s' % dd, '**/%s/**' % dd]
+    rng.shuffle(crafted)
+    exprs = list(dict.fromkeys(gen_exprs(rng, n) + crafted[:sizes(tier, 400, len(crafted))]))
+    items = stage_globs(exprs)
+    note_shapes(res, items)
+    built = stage_match(items, rng)
     tie_fields(res, items, ['root', 'sem'], 'C12 has_root()/has_semantic_literals()')
     kfs = {k['class']: k for k in W.known_findings('C12')}
     for it in built:
@@ -556,10 +568,12 @@ def c09(res, rng, tier, replay=None):
                 'impl vs model; oracle: Always => every canonical descendant of a matched canonical path is matched')
     exprs = gen_exprs(rng, n // 2)
     g = G.ExprGen(rng, wild=0.03, maxdepth=2)
-    tails = ['/**', '**', '**/*', '**/{%s}', '**/<%s:1,2>', '/**/<%s:>', '{%s,**/%s}', '<*/>', '**/*/', '{a/**,%s/**}', '<%s/**:1,>',
+    tails = ['<*/%B>*', '<*/%B>', '<*/%B>**', '<**/%B>*', '<*/*/%B>*', '<</*%B>%B>', '**/<*%B>', '<*%B>/**', '/**', '**', '**/*', '**/{%s}', '**/<%s:1,2>', '/**/<%s:>', '{%s,**/%s}', '<*/>', '**/*/', '{a/**,%s/**}', '<%s/**:1,>',
              '**/%s/**', '{**/%s,b/**}', '<%s/:1,>**', '**/{%s,%s/**}', '{%s/**,**}']
     while len(exprs) < n:
         t = rng.choice(tails)
+        while '%B' in t:
+            t = t.replace('%B', rng.choice(G.BOUNDS), 1)
         t = t.replace('%s', '\0')
         while '\0' in t:
             t = t.replace('\0', rng.choice(['a', 'b', 'ab', g.component(1)]), 1)
